@@ -473,6 +473,9 @@ def run(ctx):
     import act_tbl
     act_tbl.trail_rule(ctx, rep, 'C06.R5')
     rep.floor('C06.R5', 60, 'rules of the five trailing-context probes x 2 table options (34 rules each)')
+    import macro_hygiene
+    macro_hygiene.check(ctx, 'C06.R9', {'yysetbol', 'yy_set_bol'}, ['yysetbol'])
+    rep.floor('C06.R9', 3, 'yysetbol()/yy_set_bol() in the nr, r and C++ instantiation of the cpp skeleton')
     return rep.finish('other',
         "Generator side: the IR of parse.c is partitioned into grammar actions (blocks dominated by a case label of bison's action switch); the action that "
         "sets bol_needed must distribute into scbol[] only and every other into scset[] only, and ntod must read scbol[] under an even start-state number.  "
